@@ -80,7 +80,7 @@ def gen_messages(tier):
                 filler = (b"filler line of text\n" * 120)[:head_len - 1] + b"\n"
                 base.append(filler + prefix + b"straddles a buffer boundary\nlast\n")
     if tier == "thorough":
-        for i in range(core.scaled(250)):
+        for i in range(core.scaled(1500)):
             rng = core.case_rng(PROP, i, "msg")
             n = rng.choice([0, 5, 100, 1024, 3000, 9000])
             words = [b"From ", b">From ", b">>From ", b"\n", b"\n\n", b"x", b"\0", b"\xff", b"From\n", b" From ", b"abc def"]
@@ -456,7 +456,7 @@ def main(tier):
     res = core.Result()
     n_md = core.scaled(nm if quick else nm)
     n_mb = core.scaled(60 if quick else nm)
-    n_cc = core.scaled(600 if quick else 6000)
+    n_cc = core.scaled(600 if quick else 24000)
     res.merge(core.pmap(maildir_worker, [(b.dir, tier, lo, hi) for lo, hi in core.chunks(n_md, 30)], timeout=3000))
     res.merge(core.pmap(mbox_worker, [(b.dir, tier, lo, hi) for lo, hi in core.chunks(n_mb, 30)], timeout=3000))
     res.merge(core.pmap(mbox_concurrent_worker, [(b.dir, tier, lo, hi) for lo, hi in core.chunks(n_cc, 16)], timeout=3000))
